@@ -282,3 +282,140 @@ def h_script_twin(c1: int, c2: int, c3: int, c4: int) -> bool:
     post: _
     """
     return script_body([c1, c2, c3, c4][:PARAMS["len"]], True)
+
+
+# ---- inductive step over the tracker state: ANY history that leads to a state inside the bound, then one command ------------------
+def inv_holds(solver, frames, oneshot):
+    """representation invariant of IncrementalTrackingSolver + stub back-end w.r.t. the reference frames:
+    the tracked list is the concatenation of the frames (+ the one-shot formula while a pop is pending), the LIVE backtrack points
+    (the last len(frames)-1, +1 while a pop is pending) are the prefix sums, the back-end holds the same frames."""
+    flat = [f for fr in frames for f in fr]
+    S = list(solver._assertion_stack)
+    P = list(solver._backtrack_points)
+    sums = []
+    acc = 0
+    for fr in frames[:-1]:
+        acc += len(fr)
+        sums.append(acc)
+    if oneshot is not None:
+        if not solver.pending_pop:
+            return False
+        expS = flat + [oneshot]
+        expP = sums + [len(flat)]
+        expB = [list(fr) for fr in frames] + [[oneshot]]
+    else:
+        if solver.pending_pop:
+            return False
+        expS, expP, expB = flat, sums, [list(fr) for fr in frames]
+    if S != expS:
+        return False
+    if len(P) < len(expP) or (expP and P[len(P) - len(expP):] != expP):
+        return False
+    return [list(fr) for fr in solver.frames] == expB
+
+
+def state_step_body(s0, s1, s2, d, stale, pend, twin):
+    sizes = decode([s0, s1, s2], 3)
+    dd = decode([d], 3)
+    st = decode([stale], 3)
+    if sizes is None or dd is None or st is None:
+        return True
+    depth, nstale = dd[0], st[0]
+    pending = True if pend else False
+    cmd = PARAMS["cmd"]
+    with NoTracing():
+        from engine.stubsolver import make_stub_class
+        from pysmt import typing as T
+        env = new_env(dict_model=False)
+        m = env.formula_manager
+        solver = make_stub_class()(env)
+        q = m.Symbol("q", T.BOOL)
+        # canonical history of the abstract state (stale backtrack points of frames dropped by a reset, `depth` live frames of
+        # the given sizes, optionally a one-shot query whose pop is still pending)
+        if nstale:
+            solver.push(nstale)
+            solver.add_assertion(m.Symbol("dropped", T.BOOL))
+            solver.reset_assertions()
+        frames = [[]]
+        cnt = 0
+        for k in range(depth + 1):
+            if k > 0:
+                solver.push()
+                frames.append([])
+            for _ in range(sizes[k]):
+                f = m.Symbol("p%d" % cnt, T.BOOL)
+                cnt += 1
+                solver.add_assertion(f)
+                frames[-1].append(f)
+        oneshot = None
+        if pending:
+            solver.is_sat(q)
+            oneshot = q
+        pre_ok = inv_holds(solver, frames, oneshot)
+        ok = pre_ok
+        legal = True
+        name = S_CMDS[cmd]
+        post_oneshot = None
+        # every command first clears a pending pop (reference: the one-shot frame is gone)
+        if ok:
+            if name in ("assert", "assert2"):
+                f = m.Or(m.Symbol("n0", T.BOOL), q) if name == "assert2" else m.Symbol("n0", T.BOOL)
+                solver.add_assertion(f)
+                frames[-1].append(f)
+            elif name in ("push0", "push1", "push2"):
+                k = int(name[-1])
+                solver.push(k)
+                for _ in range(k):
+                    frames.append([])
+            elif name in ("pop0", "pop1", "pop2"):
+                k = int(name[-1])
+                if k > len(frames) - 1:
+                    legal = False
+                else:
+                    solver.pop(k)
+                    for _ in range(k):
+                        frames.pop()
+            elif name == "reset":
+                solver.reset_assertions()
+                frames = [[]]
+            elif name == "solve":
+                solver.solve()
+            elif name == "solve_assume":
+                solver.solve([q])
+            elif name == "is_sat":
+                solver.is_sat(q)
+                post_oneshot = q
+            elif name == "is_valid":
+                g = m.Or(q, m.Not(q))
+                solver.is_valid(g)
+                post_oneshot = m.Not(g)
+            elif name == "is_unsat":
+                g = m.And(q, m.Not(q))
+                solver.is_unsat(g)
+                post_oneshot = g
+            if legal:
+                ok = inv_holds(solver, frames, post_oneshot)
+                flat = [f for fr in frames for f in fr]
+                if ok and list(solver.assertions) != flat:
+                    ok = False
+                if ok and not inv_holds(solver, frames, None):
+                    ok = False          # reading the assertions leaves a state of the same family (pop no longer pending)
+    if not legal:
+        return True
+    if twin:
+        return False
+    return ok
+
+
+def h_state_step(s0: int, s1: int, s2: int, d: int, stale: int, pend: bool) -> bool:
+    """
+    post: _
+    """
+    return state_step_body(s0, s1, s2, d, stale, pend, False)
+
+
+def h_state_step_twin(s0: int, s1: int, s2: int, d: int, stale: int, pend: bool) -> bool:
+    """
+    post: _
+    """
+    return state_step_body(s0, s1, s2, d, stale, pend, True)
